@@ -52,6 +52,9 @@ ALSO = {
     # the drivers issue public-API witness calls instead (rec.cache_witness)
     'cache.sound': set(),
     'canon.pred_inverse': set(),
+    # code and transcription (Views.tla) differ: MC_Views then says nothing
+    # about this code; C18 itself is judged on the exported graph
+    'model.views_transcription': set(),
     'op.find_or_add': {'C02'},
 }
 OP_PROPERTY = {   # for "op.<name>" emitted on a malformed table / rejection
@@ -77,6 +80,9 @@ def properties_of(clause):
         p = OP_PROPERTY.get(clause[3:])
         return {p} if p else set()
     return set()
+
+
+MAX_TRACE_FILE = 48 << 20
 
 
 def load_known():
@@ -183,6 +189,16 @@ class Check:
                 if cov.get(a, (0, 0))[1] == 0:
                     raise MachineryError(
                         f'{spec}/{cfg}: action {a} never fired (vacuous)')
+        # non-vacuity probe: "<cfg>_probe.cfg" states that no two-level diagram
+        # is ever built; TLC must REFUTE it, or the configuration says little
+        probe = cfg.replace('_deep', '').replace('_q5', '').replace('.cfg', '_probe.cfg')
+        if probe != cfg and os.path.exists(os.path.join(tlcrun.SPEC, probe)) \
+                and probe not in self.extra.get('non_vacuity_probes_refuted', []):
+            pr = tlcrun.model_check(spec, probe, f'{self.pid}_{probe}', timeout=900, workers=4)
+            if 'Invariant ProbeFlat is violated' not in pr['out']:
+                raise MachineryError(f'{spec}/{probe}: the non-vacuity probe was not refuted '
+                                     '(the configuration never builds a two-level diagram)')
+            self.extra.setdefault('non_vacuity_probes_refuted', []).append(probe)
         self.log(f'mc {cfg}: {r["distinct"]} states {r["wall"]:.1f}s')
         self.states += r['distinct']
         self.transitions += r['generated']
@@ -229,16 +245,16 @@ class Check:
         self._nmerge = getattr(self, '_nmerge', 0) + 1
         files, back = [], {}
         outs = []
-        for g in range(min(groups, len(shards))):
+        for g in range(groups):
             p = os.path.join(self.dir, 'traces',
                              'merged_%d_%d.ndjson' % (self._nmerge, g))
             files.append(p)
             outs.append(open(p, 'w'))
         new = 0
         for i, sh in enumerate(shards):
-            g = i % len(outs)
             with open(sh) as f:
                 for line in f:
+                    g = new % len(outs)
                     assert line.startswith('{"t":'), line[:40]
                     k = line.index(',')
                     old = int(line[5:k])
@@ -255,8 +271,16 @@ class Check:
             return []
         back = None
         files = shards
-        if merge and len(shards) > tlcrun.NCPU:
-            files, back = self._merge(shards, tlcrun.NCPU)
+        with open(shards[0]) as f:
+            per_line = f.read(6) == '{"t":'     # one trace per line (sweep files are one run each)
+        if merge and per_line:
+            # few JVMs (start-up cost), but no file larger than the JSON
+            # reader can hold in the heap it is given
+            sizes = [os.path.getsize(s) for s in shards]
+            groups = max(min(len(shards), tlcrun.NCPU),
+                         -(-sum(sizes) // MAX_TRACE_FILE))
+            if groups != len(shards) or max(sizes) > MAX_TRACE_FILE:
+                files, back = self._merge(shards, groups)
         v, st = tlcrun.validate_shards(spec, cfg, files, self.pid, env=env,
                                        timeout=timeout)
         if back is not None:
